@@ -114,7 +114,7 @@ class Module:
                     self.imports[a.asname or a.name] = (a.name, None)
 
 
-class Repo:
+class ARepo:
     def __init__(self, root):
         self.root, self.mods = root, {}
     def module(self, name):
@@ -376,9 +376,18 @@ class Interp:
         """after a subscript store on expr `target_expr`, update the variable holding it"""
         if new is None:
             return
+        # a store through a basic-slice view (`X[a:b][mask] += v`) writes into X itself
+        while isinstance(target_expr, ast.Subscript):
+            target_expr = target_expr.value
         if isinstance(target_expr, ast.Name):
+            try:
+                old = env.get(target_expr.id)
+            except KeyError:
+                old = None
+            if old is not None and old is not new and hasattr(self.d, "join_store"):
+                new = self.d.join_store(old, new, target_expr)
             env.set(target_expr.id, new)
-        # stores through deeper expressions keep the receiver's abstract value
+        # stores through attribute expressions keep the receiver's abstract value
 
     def assign(self, t, v, env, node):
         d = self.d
